@@ -28,6 +28,7 @@ def ubi_event(G, M, bitlen, typ, level, pos0):
     return e
 
 def run(ctx):
+    ctx.claim_exhaustive = False      # keys / messages / parameters are sampled over an enumerated grid; only the spec-level models are exhaustive
     rnd = ctx.rnd; big = ctx.big()
     ctx.model_check('mc/MC_Ubi.tla', what='MC_Ubi (tweak schedule, all L over 0..4 blocks, 5 start positions)')
     ctx.model_check('mc/MC_SkeinTree.tla', what='MC_SkeinTree (symbolic UBI: Yl,Yf in 1..3, Ym in 2..4, 1..70 bytes at NB=2: unique node ids, level <= Ym, single root, leaves cover the message)')
